@@ -279,8 +279,11 @@ type OpGen struct {
 	NoOctet    bool // never tag a manifest through a hand-made octet-stream descriptor
 	// Pinned reference names are never untagged or moved: a manifest that also
 	// carries an octet-stream tag keeps one name recorded under its manifest type
-	Pinned  map[string]bool
-	pending *Op // operation to emit next
+	Pinned map[string]bool
+	// everPresent: nodes seen stored at some point of the history; the ones
+	// that are missing now were removed by Delete / AutoGC / GC
+	everPresent map[int]bool
+	pending     *Op // operation to emit next
 }
 
 // NewOpGen prepares a generator with k reference names.
@@ -386,6 +389,18 @@ func (g *OpGen) viaResolve(rng *rand.Rand, op *Op) {
 // Next draws the next operation.
 func (g *OpGen) Next(ctx context.Context, rng *rand.Rand, s *oci.Store) Op {
 	have, missing := g.present(ctx, s)
+	if g.everPresent == nil {
+		g.everPresent = map[int]bool{}
+	}
+	for _, id := range have {
+		g.everPresent[id] = true
+	}
+	var removed []int // stored earlier in this history, gone now
+	for _, id := range missing {
+		if g.everPresent[id] || g.Pushed[id] {
+			removed = append(removed, id)
+		}
+	}
 	usedAll, free := g.tagged(ctx, s)
 	var used []string // names that may be untagged or moved
 	for _, r := range usedAll {
@@ -437,6 +452,19 @@ func (g *OpGen) Next(ctx context.Context, rng *rand.Rand, s *oci.Store) Op {
 			}
 			return Op{Kind: "pushbad", Node: missing[rng.IntN(len(missing))]}
 		case "tag":
+			if len(removed) > 0 && rng.IntN(4) == 0 {
+				// tag something that a Delete / AutoGC / GC removed earlier: must fail, nothing may change
+				id := removed[rng.IntN(len(removed))]
+				if g.Nodes[id].Manifest || rng.IntN(3) == 0 || len(removed) < 3 {
+					ref := g.Refs[rng.IntN(len(g.Refs))]
+					if g.Pinned[ref] && len(free) > 0 {
+						ref = free[0]
+					}
+					if !g.Pinned[ref] {
+						return Op{Kind: "tag", Node: id, Ref: ref, Ann: g.ann(rng)}
+					}
+				}
+			}
 			if bad && len(missing) > 0 {
 				return Op{Kind: "tag", Node: missing[rng.IntN(len(missing))], Ref: g.Refs[rng.IntN(len(g.Refs))]}
 			}
@@ -888,9 +916,28 @@ func (o *Obs) Items() int {
 // written by the system tar.
 var ReopenPaths = []string{"rw", "fs", "gotar", "systar"}
 
+// FirstUseCancelled makes the first graph-using call of a freshly opened store
+// a Predecessors with an already-cancelled context; the result is ignored. A
+// store must not be damaged for the rest of its life by a failed first use.
+func FirstUseCancelled(s content.PredecessorFinder) {
+	c, cancel := context.WithCancel(context.Background())
+	cancel()
+	probe := []byte("first use")
+	s.Predecessors(c, ocispec.Descriptor{MediaType: "application/octet-stream", Digest: digest.FromBytes(probe), Size: int64(len(probe))})
+}
+
 // Reopen opens dir again. scratch is a directory for tar files; cleanup
-// removes them (the tar must stay while the store is in use).
+// removes them (the tar must stay while the store is in use). The first
+// graph-using call on the returned store has been made with a cancelled context.
 func Reopen(ctx context.Context, dir, how, scratch string) (ReadStore, func(), error) {
+	s, cleanup, err := reopen(ctx, dir, how, scratch)
+	if err == nil {
+		FirstUseCancelled(s)
+	}
+	return s, cleanup, err
+}
+
+func reopen(ctx context.Context, dir, how, scratch string) (ReadStore, func(), error) {
 	nop := func() {}
 	switch how {
 	case "rw":
@@ -1219,5 +1266,10 @@ func appendGoTar(tarPath, dir string, files []string) error {
 
 // OpenTar opens a store from an archive (the archive must stay in place).
 func OpenTar(ctx context.Context, path string) (ReadStore, error) {
-	return oci.NewFromTar(ctx, path)
+	s, err := oci.NewFromTar(ctx, path)
+	if err != nil {
+		return nil, err
+	}
+	FirstUseCancelled(s)
+	return s, nil
 }
